@@ -21,6 +21,11 @@ def shard(seed, idx, n, tier):
             c04.one_case(rng, res, check_c11=True)
     finally:
         cr.TAMPERS = old
+    # the command line is the library with another way of passing arguments (harness/cliequiv.py)
+    from harness import cliequiv
+    for _ in range(max(2, n // 2)):
+        cliequiv.equiv_case(rng, res, "run")
+    cliequiv.equiv_case(rng, res, "mock")
     return res
 
 
